@@ -56,7 +56,7 @@ func runVecQuiet(v *Vec) (res string) {
 		for k := 0; k < v.N; k++ {
 			for _, in := range v.Inj {
 				if in.At == k {
-					cpu.Interrupt = &z80.Interrupt{Type: z80.InterruptType(in.Intr.Type), Data: append([]uint8{}, in.Intr.Data...)}
+					cpu.Interrupt = mkIntr(in.Intr.Type, in.Intr.Data)
 				}
 			}
 			cpu.Step()
